@@ -30,6 +30,11 @@ Definition range2 (w : Z) : list Z := map Z.of_nat (seq 0 (Z.to_nat (2 ^ w))).
 Definition all_cases3 (wa wb wc : Z) : list (Z * Z * Z) :=
   flat_map (fun a => flat_map (fun b => map (fun c => (a, b, c)) (range2 wc)) (range2 wb)) (range2 wa).
 
+(* the same with the first operand restricted to [alo, ahi) *)
+Definition all_cases3r (alo ahi wb wc : Z) : list (Z * Z * Z) :=
+  flat_map (fun a => flat_map (fun b => map (fun c => (a, b, c)) (range2 wc)) (range2 wb))
+           (map (fun k => alo + Z.of_nat k) (seq 0 (Z.to_nat (ahi - alo)))).
+
 Definition adder_codes : list Z := [0; 1; 14].
 Definition red_add_codes : list (Z * Z) := [(0, 0); (0, 1); (0, 14); (1, 0); (1, 1); (1, 14)].
 
@@ -39,22 +44,17 @@ Definition h_add2_row (wa wb : Z) (c : Z * Z * Z) : list (Z * Z) :=
   let A := bits wa a in let B := bits wb b in let ci := negb (cin =? 0) in
   outv (kogge_stone A B ci) :: outv (ripple_add A B ci)
   :: map (fun la => outv (cla_adder la A B ci)) [1; 2; 3; 4; 5]%nat
-  ++ [outv (kogge_stone_with ks_init_gen_cin A B ci)].
+  ++ [outv (kogge_stone_with ks_init_gen_asis A B ci)].
 
 Definition h_add2 (wa wb : Z) (cases : list (Z * Z * Z)) :=
   pack (map (h_add2_row wa wb) cases).
-
-(* variant of kogge_stone with the carry-in folded into generate bit 0 *)
-Definition h_ks_cin (wa wb : Z) (cases : list (Z * Z * Z)) : list (Z * Z) :=
-  map (fun c => let '(a, b, cin) := c in
-       outv (kogge_stone_with ks_init_gen_cin (bits wa a) (bits wb b) (negb (cin =? 0)))) cases.
 
 (* multipliers: tree_multiplier x 6 (reducer, adder), signed_tree_multiplier *)
 Definition h_mul2_row (wa wb : Z) (c : Z * Z * Z) : list (Z * Z) :=
   let '(a, b, _) := c in
   let A := bits wa a in let B := bits wb b in
   map (fun ra => outo (tree_multiplier (reducer_of (fst ra)) (adder_of (snd ra)) A B)) red_add_codes
-  ++ [outo (signed_tree_multiplier A B); outo (signed_tree_multiplier_with (fun x => x) A B)].
+  ++ [outo (signed_tree_multiplier A B); outo (signed_tree_multiplier_with stm_magnitude_prefix A B)].
 
 Definition h_mul2 (wa wb : Z) (cases : list (Z * Z * Z)) :=
   pack (map (h_mul2_row wa wb) cases).
@@ -68,7 +68,7 @@ Definition h_tri_row (wa wb wc : Z) (c : Z * Z * Z) : list (Z * Z) :=
          red_add_codes
   ++ map (fun ra => outo (fused_multiply_adder (reducer_of (fst ra)) (adder_of (snd ra)) A B C))
          red_add_codes
-  ++ map (fun k => outo (carrysave_adder_with false (adder_of k) A B C)) adder_codes.
+  ++ map (fun k => outo (carrysave_adder_with true (adder_of k) A B C)) adder_codes.
 
 Definition h_tri (wa wb wc : Z) (cases : list (Z * Z * Z)) :=
   pack (map (h_tri_row wa wb wc) cases).
